@@ -189,6 +189,18 @@ pub fn load_from_xlsx_bytes(
     load_xlsx_from_reader(name.to_string(), reader, locale, tz)
 }
 
+/// Verification hook: loads a [Workbook] from any seekable reader, so that a
+/// simulated disk can inject read-side faults.
+#[cfg(feature = "verif")]
+pub fn verif_load_xlsx_from_reader<R: Read + std::io::Seek>(
+    reader: R,
+    name: &str,
+    locale: &str,
+    tz: &str,
+) -> Result<Workbook, XlsxError> {
+    load_xlsx_from_reader(name.to_string(), reader, locale, tz)
+}
+
 /// Loads a [Model] from an xlsx file
 pub fn load_from_xlsx<'a>(
     file_name: &str,
